@@ -140,3 +140,108 @@ From Pogreb Require Import ShapeCheck.
 Theorem C03_recovery_runs_alone : open_worker_after_recovery = true.
 Proof. exact shape_open_worker_after_recovery. Qed.
 Print Assumptions C03_recovery_runs_alone.
+
+(* ---- the same on the PHYSICAL index (Phys.v: bucket files addressed by byte offset, overflow allocation,
+   free list), PhysCrash.v: three layers, phys -- PR --> chain -- st_rel --> flat; the process dies at any
+   event boundary or inside a record write of the operation running on the physical-index database ---- *)
+From Pogreb Require Import Base BaseLemmas Crc Bytes Record RecordProofs Flat Index Spec DB DBInv
+  DBLemmas DBProofsOps DBMeta DBProofsCompact DBProofsRecovery DBProofsCrash DBSim DBRun DBSimExact
+  Bucket Phys PhysProofs PhysDB DBSimSessions PhysCrash.
+Import ListNotations.
+(* Put: the next Open (phys) recovers; Get/Has/Count/Items answer from the map before or after the Put; the recovered index satisfies the physical invariant *)
+Theorem C03_crash_during_put_on_the_physical_index :
+  forall P seed (s1 s1' : (@DB.st phys)) (sp : (@DB.st pindex)) (sf : (@DB.st flat)) k v o img1,
+
+  params_ok P -> gst_rel PR s1 sp -> st_rel sp sf -> Inv P sf ->
+  (exists m, s_mem sf = Some m /\ room m) -> bac_ok (s_disk sf) ->
+  Forall byte k -> Forall byte v -> nlen k <= max_key_len -> nlen v <= max_val_len ->
+  db_put phys_ops P k v (clear_trace s1) = (s1', o) ->
+  gcrash_image phys_ops (s_disk s1) (s_trace s1') img1 ->
+  let sp' := fst (db_put chain_ops P k v (clear_trace sp)) in
+  let sf' := fst (db_put flat_ops P k v (clear_trace sf)) in
+  gst_rel PR s1' sp' /\ st_rel sp' sf' /\
+  exists imgp imgf s2 sp2 sf2,
+    gdisk_rel PR img1 imgp /\ disk_rel imgp imgf /\ before_or_after (s_disk sf) (s_disk sf') imgf /\
+    db_open phys_ops P seed (closed1 img1) = (s2, OOpened true) /\
+    db_open chain_ops P seed (closedp imgp) = (sp2, OOpened true) /\
+    gst_rel PR s2 sp2 /\ st_rel sp2 sf2 /\ Inv P sf2 /\ s_mem sf2 <> None /\ phys_open_ok s2 /\
+    (answers1 P s2 (abs (s_disk sf)) \/ answers1 P s2 (sput (abs (s_disk sf)) k v)).
+Proof. exact phys_crash_put. Qed.
+Print Assumptions C03_crash_during_put_on_the_physical_index.
+
+(* Delete *)
+Theorem C03_crash_during_delete_on_the_physical_index :
+  forall P seed (s1 s1' : (@DB.st phys)) (sp : (@DB.st pindex)) (sf : (@DB.st flat)) k o img1,
+
+  params_ok P -> gst_rel PR s1 sp -> st_rel sp sf -> Inv P sf ->
+  (exists m, s_mem sf = Some m /\ room m) -> bac_ok (s_disk sf) -> Forall byte k ->
+  db_delete phys_ops P k (clear_trace s1) = (s1', o) ->
+  gcrash_image phys_ops (s_disk s1) (s_trace s1') img1 ->
+  let sp' := fst (db_delete chain_ops P k (clear_trace sp)) in
+  let sf' := fst (db_delete flat_ops P k (clear_trace sf)) in
+  gst_rel PR s1' sp' /\ st_rel sp' sf' /\
+  exists imgp imgf s2 sp2 sf2,
+    gdisk_rel PR img1 imgp /\ disk_rel imgp imgf /\ before_or_after (s_disk sf) (s_disk sf') imgf /\
+    db_open phys_ops P seed (closed1 img1) = (s2, OOpened true) /\
+    db_open chain_ops P seed (closedp imgp) = (sp2, OOpened true) /\
+    gst_rel PR s2 sp2 /\ st_rel sp2 sf2 /\ Inv P sf2 /\ s_mem sf2 <> None /\ phys_open_ok s2 /\
+    (answers1 P s2 (abs (s_disk sf)) \/ answers1 P s2 (sdel (abs (s_disk sf)) k)).
+Proof. exact phys_crash_delete. Qed.
+Print Assumptions C03_crash_during_delete_on_the_physical_index.
+
+(* Sync: contents unchanged *)
+Theorem C03_crash_during_sync_on_the_physical_index :
+  forall P seed (s1 s1' : (@DB.st phys)) (sp : (@DB.st pindex)) (sf : (@DB.st flat)) o img1,
+
+  params_ok P -> gst_rel PR s1 sp -> st_rel sp sf -> Inv P sf -> s_mem sf <> None -> bac_ok (s_disk sf) ->
+  db_sync phys_ops (clear_trace s1) = (s1', o) ->
+  gcrash_image phys_ops (s_disk s1) (s_trace s1') img1 ->
+  recovers_unchanged P seed true img1 (abs (s_disk sf)).
+Proof. exact phys_crash_sync. Qed.
+Print Assumptions C03_crash_during_sync_on_the_physical_index.
+
+(* a compaction micro-step: contents unchanged *)
+Theorem C03_crash_during_compaction_step_on_the_physical_index :
+  forall P seed (s1 s1' : (@DB.st phys)) (sp : (@DB.st pindex)) (sf : (@DB.st flat)) c c' img1,
+
+  params_ok P -> gst_rel PR s1 sp -> st_rel sp sf -> Inv P sf -> CInv sf c ->
+  (exists m, s_mem sf = Some m /\ room m) -> bac_ok (s_disk sf) ->
+  compact_step phys_ops P (clear_trace s1) c = CMore s1' c' ->
+  gcrash_image phys_ops (s_disk s1) (s_trace s1') img1 ->
+  recovers_unchanged P seed true img1 (abs (s_disk sf)).
+Proof. exact phys_crash_compact_step. Qed.
+Print Assumptions C03_crash_during_compaction_step_on_the_physical_index.
+
+(* the pick of a compaction *)
+Theorem C03_crash_during_compaction_pick_on_the_physical_index :
+  forall P seed (s1 s1' : (@DB.st phys)) (sp : (@DB.st pindex)) (sf : (@DB.st flat)) c img1,
+
+  params_ok P -> gst_rel PR s1 sp -> st_rel sp sf -> Inv P sf -> s_mem sf <> None -> bac_ok (s_disk sf) ->
+  compact_pick phys_ops P (clear_trace s1) = Some (s1', c) ->
+  gcrash_image phys_ops (s_disk s1) (s_trace s1') img1 ->
+  recovers_unchanged P seed true img1 (abs (s_disk sf)).
+Proof. exact phys_crash_compact_pick. Qed.
+Print Assumptions C03_crash_during_compaction_pick_on_the_physical_index.
+
+(* Close: recovery, or a clean Open when Close had finished *)
+Theorem C03_crash_during_close_on_the_physical_index :
+  forall P seed (s1 s1a : (@DB.st phys)) (sp : (@DB.st pindex)) (sf : (@DB.st flat)) o img1,
+
+  params_ok P -> gst_rel PR s1 sp -> st_rel sp sf -> Inv P sf -> s_mem sf <> None -> bac_ok (s_disk sf) ->
+  db_close phys_ops (clear_trace s1) = (s1a, o) ->
+  gcrash_image phys_ops (s_disk s1) (s_trace s1a) img1 ->
+  exists b, recovers_unchanged P seed b img1 (abs (s_disk sf)).
+Proof. exact phys_crash_close. Qed.
+Print Assumptions C03_crash_during_close_on_the_physical_index.
+
+(* every crash image (torn ones included) stores only indexes satisfying the physical invariant *)
+Theorem C03_crash_images_store_wellformed_physical_indexes :
+  forall (s1 s1' : (@DB.st phys)) (sp sp' : (@DB.st pindex)) img1,
+
+  gdisk_rel PR (s_disk s1) (s_disk sp) -> gst_rel PR s1' sp' ->
+  gcrash_image phys_ops (s_disk s1) (s_trace s1') img1 -> phys_disk_ok img1.
+Proof. exact phys_crash_image_inv. Qed.
+Print Assumptions C03_crash_images_store_wellformed_physical_indexes.
+
+Definition C03_physical_nonvacuous_torn_put := PhysCrashEx.ex_torn_put_phys.
+Definition C03_physical_nonvacuous_put_without_index_write := PhysCrashEx.ex_put_no_index_write.
